@@ -216,6 +216,8 @@ def explore_shard(cfg, first_dev, bound):
                 break
         res["outcomes"].add(obs.get("outcome"))
         res.setdefault("examples", {}).setdefault(obs.get("outcome"), choices)
+        if "schedule_sample" not in res and any(t[3] and t[1] > 0 for t in trace):
+            res["schedule_sample"] = {"choices": choices, "points": [t[2] for t in trace][:60]}
         for sig, detail in obs["viol"]:
             if sig not in sigs:
                 sigs.add(sig)
@@ -272,6 +274,8 @@ def run_case(case):
         res["viol"] = [tuple(v) for v in res["viol"]]
     if case["first_dev"] == -1:
         res["sample"] = {"cfg": cfg, "default_schedule_points": res.get("trans")}
+    elif case["first_dev"] == 3 and res.get("schedule_sample"):
+        res["sample"] = {"cfg": cfg, "one_preempted_schedule": res["schedule_sample"]}
     return res
 
 
